@@ -235,6 +235,12 @@ def unlink_events(body, retired_local, an):
         elif w and w[0] == "reclaim":
             f = receiver_field(body, c, 0)
             if klass != "bin" and (f & NODE_LINK_FIELDS):
+                # a link of a node that this body has just allocated (the copy being built) is not a link of the shared structure:
+                # writing it unlinks nothing
+                from .rules_c07 import private_roots
+                tl = op_root(c.args[0])
+                if tl is not None and body.ty(tl).get("s") and not private_roots(body, tl):
+                    continue
                 ev[c.point] = "%s of %s at %s" % (w[1], sorted(f)[0][1], c.span)
             elif klass == "value" and (f & VALUE_FIELDS):
                 ev[c.point] = "%s of the value slot at %s" % (w[1], c.span)
